@@ -14,7 +14,7 @@ CHECKS = {
          "All operation histories up to the stated depth over a 29-operation alphabet (valid and invalid arguments, every stuffing case, WritePacket) from several set-up states and three retransmit periods, plus closure (fixpoint) searches over restricted alphabets; after every transition the bytes that reached the writer are decoded by the reference decoder and compared with the returned counts.",
          "Trusted: the reference TS decoder (/verif/ref/ts.go) and the reflective state dump used as dedup key (finer key only costs time). Bounded: depth 3-4 (quick) / 4-6 (thorough) for the full alphabet; unbounded depth only for the restricted alphabets.", "5 C04"),
  "C05": (MC, "explicit-state BFS / closure over Muxer API histories with a per-PID continuity-counter monitor on the output bytes",
-         "Continuity is checked on the decoded output after every transition of every explored history, including closure searches in which every counter value and every 15->0 wrap is reached on ES, PAT and PMT PIDs, failing table generations between successful ones, stream removal/re-addition and the adaptation-field-too-large WriteData.",
+         "Continuity is checked on the decoded output after every transition of every explored history, including closure searches in which every counter value and every 15->0 wrap is reached on ES, PAT and PMT PIDs, failing table generations between successful ones, stream removal/re-addition and the adaptation-field-too-large WriteData; all histories (length <= 5/6) with a refused PAT or PMT write: the packets that reached the output never repeat a counter value and skip at most one value per refused write.",
          "Same trusted base as C04. One open known finding (first-packet adaptation field that leaves no room for the PES header).", "5 C05"),
  "C17": (MC, "explicit-state BFS / closure over Muxer API histories in lock-step with a reference model of table timing, content and versioning",
          "A reference model (stream list, PCR PID, call counters, dirty flag) predicts for every call whether a PAT/PMT pair must, may or must not be emitted, the exact PMT section bytes (reference encoder) and the version number; closure searches cross the mod-32 version wrap and the retransmit period for several periods.",
@@ -83,7 +83,7 @@ CHECKS.update({
 
 CHECKS.update({
  "C16": (MC, "stateless model checking of thread interleavings: hand-written cooperative scheduler over the real code with the sync.Pool replaced by a controllable shim (go build -overlay), DFS over scheduling and pool-item choices within a preemption bound and a data-deviation bound, sharded over 14 processes; plus a separate free-running -race pass of the same harness bodies",
-         "Threads = independent Demuxer/Muxer instances (2-3 per scenario) whose only shared object is the package-level buffer pool; scheduling points at thread start/end and every pool Get/Put, data choice at Get (any pooled item or a fresh one), pooled buffers poisoned on Put; every execution is run to completion and each thread's results must equal its solo run; pool ownership is asserted; every returned Packet/DemuxerData is deep-copied at delivery and re-compared after later calls (aliasing of the reused read buffer or of pooled memory); the Muxer must not touch the caller's payload.",
+         "Threads = independent Demuxer/Muxer instances (2-3 per scenario) whose only shared object is the package-level buffer pool; scheduling points at thread start/end and every pool Get/Put, data choice at Get (any pooled item or a fresh one), pooled buffers poisoned on Put; every execution is run to completion and each thread's results must equal its solo run; pool ownership is asserted; every returned Packet/DemuxerData is deep-copied at delivery and re-compared after later calls (aliasing of the reused read buffer or of pooled memory); the Muxer must not touch the caller's payload; all sequences over {NextData, NextPacket, Rewind} (length <= 5/7, and D^k R D^k2) on streams whose units deliver several data sharing a first packet: every result re-compared after every later call, Rewind included.",
          "Preemption inside library code between pool operations is not explored (no synchronisation there to reorder - instance-local memory); that premise is what the free-running race pass checks (2/8/64 goroutines under -race; it samples schedules and is the prescribed complement, not the deciding step). If pools.go stops importing sync the overlay is a no-op and the evidence says pool_shim_active=false.", "5 C16"),
 })
 
